@@ -173,7 +173,7 @@ def check_c10(pid, tier, replay):
     hang = gen_pitch.hang_histories()
     # interleave the expensive sweep histories with the cheap ones so that the chunks are balanced
     heavy = sweeps + fine + keysw
-    cheap = beh + porta + rule + rnd
+    cheap = beh + porta + rule + rnd + gen_pitch.reset_histories()
     random.Random(vc.seed() * 31 + 10).shuffle(cheap)
     random.Random(vc.seed() * 37 + 10).shuffle(heavy)
     histories = []
